@@ -43,6 +43,10 @@ type MemFs struct {
 	dirents map[pathname]int
 	// solely for catching misuse we track open files
 	openFiles map[int]fileMode
+	// open descriptor -> inode; descriptors are allocated independently of
+	// inodes so every Create/Open yields its own descriptor
+	fdInodes map[int]int
+	lastFd   int
 }
 
 // NewMemFs creates an empty MemFs
@@ -52,6 +56,7 @@ func NewMemFs() *MemFs {
 		inodes:    make(map[int][]byte),
 		dirents:   make(map[pathname]int),
 		openFiles: make(map[int]fileMode),
+		fdInodes:  make(map[int]int),
 	}
 }
 
@@ -65,6 +70,14 @@ func (fs *MemFs) nextFd() int {
 	return len(fs.inodes) + 1
 }
 
+// openInode allocates a fresh descriptor for an inode
+func (fs *MemFs) openInode(ino int, mode fileMode) File {
+	fs.lastFd++
+	fs.fdInodes[fs.lastFd] = ino
+	fs.openFiles[fs.lastFd] = mode
+	return File(fs.lastFd)
+}
+
 func (fs *MemFs) Create(dir, fname string) (f File, ok bool) {
 	fs.m.Lock()
 	defer fs.m.Unlock()
@@ -76,8 +89,7 @@ func (fs *MemFs) Create(dir, fname string) (f File, ok bool) {
 	fd := fs.nextFd()
 	fs.inodes[fd] = nil
 	fs.dirents[p] = fd
-	fs.openFiles[fd] = appendMode
-	return File(fd), true
+	return fs.openInode(fd, appendMode), true
 }
 
 func (fs *MemFs) checkMode(f File, mode fileMode) int {
@@ -88,7 +100,7 @@ func (fs *MemFs) checkMode(f File, mode fileMode) int {
 	if actual != mode {
 		panic(fmt.Errorf("attempt to use file using %s != %s", mode, actual))
 	}
-	return f.fd()
+	return fs.fdInodes[f.fd()]
 }
 
 func (fs *MemFs) Append(f File, data []byte) {
@@ -105,6 +117,7 @@ func (fs *MemFs) Close(f File) {
 		panic(fmt.Errorf("close of unopened fd %d", f.fd()))
 	}
 	delete(fs.openFiles, f.fd())
+	delete(fs.fdInodes, f.fd())
 }
 
 func (fs *MemFs) Open(dir, fname string) File {
@@ -116,8 +129,7 @@ func (fs *MemFs) Open(dir, fname string) File {
 	if !ok {
 		panic(fmt.Errorf("file %s does not exist", fname))
 	}
-	fs.openFiles[fd] = readMode
-	return File(fd)
+	return fs.openInode(fd, readMode)
 }
 
 func (fs *MemFs) ReadAt(f File, offset uint64, length uint64) []byte {
